@@ -167,6 +167,16 @@ func (g *Gen) Schema(depth int) M {
 		if r.Chance(300) {
 			s["maxProperties"] = pick(r, lens)
 		}
+	case shape < 49: // overlapping patternProperties: one member name matches several patterns, each with its own schema
+		s["type"] = "object"
+		pp := M{}
+		for _, p := range [][]string{{"^a", "^[a-b]", "a"}, {"c", "^c", "c$"}, {"^d.*", "d", "^d"}}[r.Intn(3)][:r.Range(2, 3)] {
+			pp[p] = g.Schema(0)
+		}
+		s["patternProperties"] = pp
+		if r.Chance(300) {
+			s["additionalProperties"] = false
+		}
 	case shape < 62: // object
 		g.object(s, depth)
 	case shape < 74: // array
@@ -190,7 +200,12 @@ func (g *Gen) object(s M, depth int) {
 	np := r.Range(0, 3)
 	props := M{}
 	for i := 0; i < np; i++ {
-		props[pick(r, propNames)] = g.Schema(depth - 1)
+		ps := g.Schema(depth - 1)
+		if r.Chance(200) {
+			// a default: an absent member counts as created from its default (required, defaulter bookkeeping)
+			ps["default"] = pick(r, []any{"x", 1, 0, true, nil, "2020-01-01"})
+		}
+		props[pick(r, propNames)] = ps
 	}
 	if len(props) > 0 {
 		s["properties"] = props
@@ -411,6 +426,19 @@ func (g *Gen) Instance(s M, depth int, valid bool) any {
 		default:
 			return g.junk(2)
 		}
+	}
+	if pp, ok := s["patternProperties"].(M); ok && s["properties"] == nil && t == "object" && len(pp) >= 2 {
+		// members whose names match several of the patterns
+		o := M{}
+		for _, k := range []string{"a", "ab", "c", "cc", "d", "dx"} {
+			if r.Chance(450) {
+				o[k] = g.junk(1)
+			}
+		}
+		if len(o) == 0 {
+			o[pick(r, []string{"a", "c", "d"})] = g.junk(1)
+		}
+		return o
 	}
 	if !valid && r.Chance(250) {
 		t = pick(r, append(primTypes, "object", "array"))
